@@ -68,7 +68,10 @@ def design_level(ctx, quick):
             raise core.Infra("RoomHub liveness EventuallyId fails (NC=%d): %s" % (nc, r.violated))
         ctx.extra["model_liveness_nc%d_states" % nc] = r.distinct
     # the wire format: Decode is a left inverse of Encode on the domain, and only there
-    r = core.run_tlc(d, "RoomWireMC", "RoomWireMC.cfg", workers=4, timeout=900)
+    with open(os.path.join(d, "W.cfg"), "w") as f:
+        f.write("CONSTANTS MaxLen = 255 Crowd = 255 Mid = %s\nSPECIFICATION Spec\nINVARIANTS RoundTrip Faithful\n"
+                "CHECK_DEADLOCK FALSE\n" % ("{1}" if quick else "{1, 2}"))
+    r = core.run_tlc(d, "RoomWireMC", "W.cfg", files=[(os.path.join(d, "W.cfg"), "W.cfg")], workers=4, timeout=900)
     ctx.add_tlc(r)
     if r.rc != 0:
         raise core.Infra("RoomWire round trip fails inside the domain: %s" % r.violated)
